@@ -51,6 +51,16 @@ CLAIMS = {
         text="Machine-checked for every instruction sequence and table set: the loader accepts iff the bracket automaton A (the specification, ~25 lines) accepts and otherwise returns A's error at the first offending instruction or the unclosed error at the end; on success every function has its defining and ending instruction and every block its label and a final terminator occurring nowhere else; each opcode-determined section is exactly the order-preserving filter of the input by class. The model is tied to dr/loader.rs by all words of length <= 5 over a 9-letter alphabet, seeded longer words and every one of the 787 opcodes at module level and inside a block, judged also by an independent Python automaton.",
         note="Trusted: Lean kernel + standard axioms; hand model Loader.lean tied by the `load` channel; classification predicates come from the extracted reflect table (C16 judges them against the specification); vendor constants ConstantPipeStorage/ConstantStringAMDX/SpecConstantStringAMDX/ConstantFunctionPointerINTEL are outside the claim as the property states.",
         ref="DESIGN.md §8 C05"),
+    "C12": dict(
+        technique="Lean 4 invariant proof over all Builder call sequences on a model of dr::Builder whose generated methods are interpreted from specs translated from the source; differential `build` channel (exhaustive short histories + seeded) with error-atomicity observed on the real module",
+        text="Machine-checked for every call sequence with in-range insertion offsets: no call panics (every index into functions/blocks is an explicit panic outcome of the model, proved unreachable under the invariant), the selection always designates an existing function and block or nothing, begin_function fails iff a function is open, begin_block iff no function or a block is open, block instructions and terminators iff no block is selected, parameter/end_function iff no function is open, a terminator closes the block, end_function closes the function, and a failing call leaves the module's instructions unchanged. The pre-fix code violated the invariant (stale block selection, fixed by ebbae66).",
+        note="Trusted: Lean kernel + standard axioms; hand model Builder.lean/BuilderHand.lean, strict translator builder.py for all 1128 generated methods, differential harness; insertion offsets in range and next_id < 2^32 are hypotheses.",
+        ref="DESIGN.md §8 C12"),
+    "C13": dict(
+        technique="Lean 4 theorems by induction over call histories of the Builder model (counter monotone by one, fresh ids = consecutive range, bound = next id, three-way type request, no-duplicate invariant); differential on seeded histories over every generated type method",
+        text="Machine-checked for every call history: each call leaves next_id unchanged or advances it by one; the ids allocated along a history are exactly the consecutive range from the start (1, or the header bound of a continued module) to the final counter, so they are distinct and increasing and the finished header bound exceeds all of them; an implicit type request returns the first identical declaration's id and changes nothing, or appends exactly one declaration with a fresh id; an explicit id always appends; implicit-only request sequences keep types_global_values free of identical declarations.",
+        note="Trusted: Lean kernel + standard axioms; Builder model + translated method specs + differential harness (all 32 generated dedup type methods and type_pointer exercised); id space not exhausted.",
+        ref="DESIGN.md §8 C13"),
 }
 
 
